@@ -31,3 +31,12 @@ Theorem C04_output_independent_of_trailing_input : forall cfg d q z out t rest,
   end.
 Proof. exact decode_frame_prefix. Qed.
 Print Assumptions C04_output_independent_of_trailing_input.
+
+(* what "the content the specification defines" is for a match: R's execution engine (chunked copies through its mark
+   accelerator) computes the byte-by-byte LZ77 copy from the history, for every offset (overlapping or not) and length *)
+From ZV.Codec Require Import LzContent.
+Theorem C04_sequence_execution_is_lz77 : forall fuel x off ml, sinv x -> 1 <= off -> off <= x_avail x -> ml <= N.of_nat fuel * off ->
+  sinv (copy_match fuel x off ml) /\
+  x_hist (copy_match fuel x off ml) = copy_naive (N.to_nat ml) (N.to_nat off) (x_hist x).
+Proof. exact copy_match_spec. Qed.
+Print Assumptions C04_sequence_execution_is_lz77.
